@@ -61,13 +61,14 @@ theorem noise_then_frame_state (g m : List UInt8) (cap : Option Nat) (hg : Start
 /-! ### 2. noise, then a frame: every idle decoder -/
 
 /-- The decoder is between transmissions: it is new, or its last answer was a delivered
-transmission, an `InvalidMessage` / `InvalidEsc` / `OutOfMemory` error, or the answer of `finalize`
-or `reset` (`C14.Boundary`). -/
+transmission, an `InvalidMessage` / `InvalidEsc` / `OutOfMemory` error, the answer of `finalize`
+or `reset`, or it has just been replaced by `Decoder::new()` / `Decoder::from_buf(buf)`
+(`C14.Boundary`). -/
 def Idle (cap : Option Nat) (ops : List Op) : Prop :=
   ops = [] ∨ ∃ o, (Dec.run (Dec.fresh cap) ops).2.getLast? = some o ∧ C14.Boundary o
 
 /-- The same answers from a decoder with any idle history `ops` of `push_byte` / `finalize` /
-`reset` calls. -/
+`reset` / `new` / `from_buf` calls. -/
 theorem noise_then_frame_idle (cap : Option Nat) (ops : List Op) (h : Idle cap ops)
     (g m : List UInt8) (hg : StartFree g) (hm : fitsCap cap m.length) :
     (Dec.pushAll (Dec.run (Dec.fresh cap) ops).1 (g ++ frame m)).2 =
@@ -162,6 +163,11 @@ example : Idle (some 8) (((frame [7]).map Op.push ++
     [0x1b, 0x1b, 0x1b, 0x1b, 0x01, 0x01, 0x01, 0x01, 0x1b, 0x1b, 0x1b, 0x1b, 0x02, 0, 0, 0].map Op.push)
       ++ [Op.push 0x55, Op.reset]) :=
   Or.inr ⟨.reset 1, by decide +kernel, trivial⟩
+
+/-- an idle history that ends with a `from_buf` over a buffer full of stale bytes -/
+example : Idle (some 8)
+    (((frame [7]).take 11).map Op.push ++ [Op.fromBuf [1, 2, 3, 4, 5, 6, 7, 8]]) :=
+  Or.inr ⟨.fromBuf, by decide +kernel, trivial⟩
 
 /-- a cut-off frame: `1b1b1b1b 01010101 01 02 | ...` (decoder in state `Normal`), then a frame -/
 example : (Dec.pushAll (Dec.fresh none) ((frame [1, 2, 3, 4, 5]).take 10)).1.st = .normal := by
